@@ -230,6 +230,10 @@ class Cfg:
     def in_loop(self, b):
         return self.reaches(b, b)
 
+    def is_loop_header(self, b):
+        """block b is the target of a back edge (some predecessor is dominated by b)"""
+        return any(self.dominates(b, p) for p in self.block_preds(b))
+
     def loop_headers(self):
         """blocks that are targets of back edges (dominating their source)"""
         hs = set()
